@@ -568,6 +568,26 @@ pub fn run(cfg: &Config) -> i32 {
             }
         }
     }
+    // field level: the spec-derived candidates of C05 (boundary lengths, leading zeros, every character
+    // class at first / middle / last position, minimal / maximal shapes) — whatever the parser accepts
+    // must survive serialise-parse-serialise unchanged
+    {
+        let specs = crate::spec::fieldfmt::specs();
+        for spec in &specs {
+            for round in 0..cfg.tier.pick(1usize, 4usize) {
+                let mut rr = Rng::new(cfg.seed, &format!("c02-spec:{}", spec.ty), round as u64);
+                for c in crate::spec::fieldfmt::candidates(spec, round * 3 + cfg.seed as usize, &mut rr, 0) {
+                    // carriage returns reach a field parser only through the message parser, which
+                    // normalises them first (covered by the block4 crlf=true cases); the field-level
+                    // treatment of a raw CR is not settled by the documentation
+                    if c.content.contains('\r') {
+                        continue;
+                    }
+                    cases.push(("field/spec-candidate".into(), Case::Field { ty: spec.ty.to_string(), input: c.content, variant: None }));
+                }
+            }
+        }
+    }
     let _ = MESSAGES;
     let ncases = cases.len() as u64;
     let total = par_for(cfg, ncases, |i, l| {
